@@ -62,6 +62,24 @@ func init() {
 					}
 				}
 			}
+			// ... and right after a malformed response for another batch on another connection (what
+			// one bad frame leaves behind must not touch the batches that follow)
+			for si, setup := range c11Setups {
+				if si%nsh != shard {
+					continue
+				}
+				bad := multiBase(setup)
+				if len(bad.rars) == 0 || len(bad.rars[0].roes) < 2 {
+					continue
+				}
+				bad.rars[0].roes[1].idx = bad.rars[0].roes[0].idx // duplicate index
+				for rep := 0; rep < 6; rep++ {
+					c11RunWire(&c11Case{op: "frame", kind: "multi", q: 5, calls: setup, f: bad})
+					for _, s2 := range c11Setups[:3] {
+						emit(strings.Replace(c12WireCase(s2, false, 5), "c12r frame 0 ", "c12r frame m ", 1))
+					}
+				}
+			}
 		})
 	}
 }
